@@ -45,6 +45,15 @@ class P:
             for t in ts[:2]:
                 if g.min_rec_len(t) > 4 and rng.random() < 0.8:
                     toks += [hx(a), hx(g.enc_msg([g.enc_set(t.tid, g.rand_record(t)[0])]))]
+                    if rng.random() < 0.6:
+                        # the same template once more with what real exporters append: several records, then padding of 1..8 zero
+                        # octets, or the beginning of one more record (everything a decoder could derive from the template - record
+                        # length, element look-ups - must survive the save and the load, not only the specifiers)
+                        body = b"".join(g.rand_record(t)[0] for _ in range(rng.choice([1, 2, 3])))
+                        one = g.rand_record(t)[0]
+                        tail = rng.choice([bytes(rng.choice([1, 2, 3, 4, 5, 6, 7, 8])), one[:max(1, len(one) - 1)], one[:len(one) // 2], b""])
+                        more = [g.enc_set(t.tid, g.rand_record(t)[0])] if rng.random() < 0.5 else []
+                        toks += [hx(a), hx(g.enc_msg([g.enc_set(t.tid, body + tail)] + more))]
         a = rand_addr(rng)
         t, o = g.rand_tpl(tid=rng.choice([256, 700]), allow_var=False)
         while g.min_rec_len(t) <= 4:
@@ -87,6 +96,8 @@ class P:
         import itertools
         pairs = list(itertools.combinations(kinds5, 2))
         self.doc_i = getattr(self, "doc_i", 0) + 1
+        if not hasattr(self, "countlie"):
+            self.countlie, self.pending_ref = {}, []
         mode = "valid" if force_valid else ["valid", "one", "pair", "one", "one", "pair", "one", "multi", "pair", "one"][self.doc_i % 10]
         # defects and their parameters are enumerated, not drawn: every single defect and every PAIR of defects comes up regularly
         active = set() if mode == "valid" else {kinds5[(self.doc_i // 10) % 5]} if mode == "one" else set(pairs[(self.doc_i // 3) % len(pairs)]) if mode == "pair" else None
@@ -151,6 +162,26 @@ class P:
             if bad[0] in text:
                 text = text.replace(bad[0], bad[1], 1)
                 doctoks = "NONE"; saved = set(); tpls = {}
+        elif saved and self.doc_i % 3 == 0:
+            # a document that is complete and well-typed but whose template headers LIE about the number of specifiers that follow
+            # (one digit changed by hand, a writer of another version): the file is accepted; using the template must be safe and
+            # must go by the specifiers that are there
+            import re as _re
+            cnt = [m_ for m_ in _re.finditer(rb'"(FieldCount|ScopeFieldCount)":(\d+)', text)]
+            if cnt:
+                m_ = cnt[(self.doc_i // 3) % len(cnt)]
+                v_ = int(m_.group(2))
+                new = [v_ + 1, v_ + 7, max(0, v_ - 1), 0, 65535][(self.doc_i // 9) % 5]
+                text0 = text
+                text = text[:m_.start(2)] + str(new).encode() + text[m_.end(2):]
+                if text != text0:
+                    tail = "D %s H %s %s" % (doctoks, self.hist(g, rng, proto, tpls), self.sweep(g, rng, proto))
+                    line0 = "cachedoc %s %s %s" % (proto, hx(text0), tail)
+                    line = "cachedoc %s %s %s" % (proto, hx(text), tail)
+                    self.saved[line0] = saved; self.saved[line] = saved
+                    self.countlie[line] = (line0, m_.group(1).decode(), v_, new)
+                    self.pending_ref.append(line0)
+                    return line, text
         line = "cachedoc %s %s D %s H %s %s" % (proto, hx(text), doctoks, self.hist(g, rng, proto, tpls), self.sweep(g, rng, proto))
         self.saved[line] = saved
         return line, text
@@ -202,9 +233,21 @@ class P:
                 else:           # absent / empty / directory
                     kind = rng.choice(["ABSENT", "EMPTYFILE", "DIRECTORY"])
                     out.append("cachedoc %s %s D NONE H %s" % (proto, kind, self.hist(g, rng, proto, {})))
+        out += [l for l in getattr(self, 'pending_ref', []) if l not in out]
         return out
 
+    def post(self, lines, impl, model):
+        self.impl_of = dict(zip(lines, impl))
+        return impl, model
+
     def judge(self, line, impl, model):
+        if line in self.countlie and "PANIC" not in impl:
+            line0, what, v_, new = self.countlie[line]
+            ref = getattr(self, "impl_of", {}).get(line0)
+            strip = lambda o: re.sub(r"^T:[^|]*\| ", "", o)
+            if ref is not None and strip(ref) != strip(impl):
+                return ("a cache file in which one template header says %s %d while %d specifiers follow is accepted, but the collector then decodes the same datagrams "
+                        "differently from the same file with the consistent header: %r vs %r" % (what, new, v_, strip(impl)[:200], strip(ref)[:200]))
         if "PANIC" in impl or "HANG" in impl or impl.startswith("CRASH"):
             return "loading or using this cache file crashes the collector: " + impl[-120:]
         if "DUMP-" in impl:
